@@ -348,6 +348,9 @@ structure CfgOK (S : Spec) (c : Config) : Prop where
 /-- a temp name made from one of the configuration's tokens -/
 def IsTok (c : Config) (x : Path) : Prop := ∃ i, x.tmp = some (c.toks i)
 
+/-- no file named with one of the configuration's temp tokens is lying around -/
+def TokFresh (c : Config) (fs : FS) : Prop := ∀ p, IsTok c p → fs.files p = none
+
 /-- no temp name with a token of call site `n` or later has been used -/
 def FreshFrom (c : Config) (st : AS) (n : Nat) : Prop := ∀ q i, q.tmp = some (c.toks i) → n ≤ i → st q = none
 
